@@ -75,10 +75,28 @@ def checkCase (j : Json) : Except String Verdict := do
   let mut idx := 0
   for (c, o) in callers.zip obs do
     let k := modelKey side c
-    let P := if c.method == "revoke" then ["C16", "C19"] else ["C16"]
+    let P := if c.method == "revoke" then ["C16", "C19"]
+             else if c.method == "validate" || c.method == "refresh" || c.method == "refreshIfNeeded" then
+               (if side == "proxy" then ["C16", "C04", "C01"] else ["C16", "C09"])
+             else ["C16"]
     let role ← jstr o "role"
     let ikey ← jhex o "key"
     v := v.tag s!"{side}/{c.method}"
+    if c.method == "redeem" then
+      -- redemption is not coalesced at all: every callback's code goes to the authenticator / identity provider on its own
+      let PR := if side == "proxy" then ["C16", "C06", "C01"] else ["C16", "C10", "C09"]
+      v := v.cmp idx "role" "leader" role PR
+      v := v.cmp idx "key" "" (hex ikey) PR
+      v := v.br s!"{side}/redeem/leader"
+      let res := (o.getObjVal? "result").toOption.getD Json.null
+      let deny := (j.getObjVal? "deny").toOption.bind (·.getBool?.toOption) |>.getD false
+      let want := if deny then "" else "user-of-" ++ showBytes c.access
+      let got := (res.getObjVal? "email").toOption.bind (·.getStr?.toOption) |>.getD "?"
+      if got != want then
+        for p in (if side == "proxy" then ["C06", "C16"] else ["C10", "C16"]) do
+          v := v.mon p "redeem_answers_own_code" idx s!"code {showBytes c.access}: session for {got}"
+      idx := idx + 1
+      continue
     match table.find? (·.1 == k) with
     | some (_, li) =>
       v := v.cmp idx "role" "follower" role P
@@ -133,6 +151,10 @@ def checkCase (j : Json) : Except String Verdict := do
       | some (_, lc) =>
         if c.method == "revoke" && lc.access != c.access then
           v := v.mon "C19" "revoke_merged_across_tokens" i s!"{showBytes lc.access} / {showBytes c.access}"
+        -- a due revalidation / refresh is answered from a provider call made with the session's *own* token
+        if (c.method == "validate" && lc.access != c.access) || ((c.method == "refresh" || c.method == "refreshIfNeeded") && lc.refresh != c.refresh) then
+          for p in (if side == "proxy" then ["C04", "C01"] else ["C09"]) do
+            v := v.mon p "check_merged_across_tokens" i s!"{c.method}: {showBytes lc.access} / {showBytes c.access}"
         -- C16 on the implementation's own merging, where the model would not have merged (the model-side pass above reports the rest)
         if !sameSubject c lc && modelKey side c != modelKey side lc then
           v := v.mon "C16" "different_subjects_merged" i s!"{showBytes ikey}"
